@@ -259,6 +259,13 @@ def _r2_r5(ctx, m):
                 ok = nrow and b["r"] == ("elem", itr, lp.id) and itr == ("call", ("global", "range"), (b["n"],), ()) and b["p"] == v
         ctx.check(ok, "R5", "pattern-rows", (FILE, rd[-1][3] if rd else line),
                   "row r of the file is pattern[r*nrow:(r+1)*nrow] for r in range(nrow), nrow = ode.jac.nrow", found=found)
+    # nothing edits the pattern after it was derived from the entries
+    if pat is not None:
+        muts = [f for f in rf.facts if f.target in ("rowdata", "pattern", "rowpattern") and f.kind in ("store", "augstore", "mutate", "remove")]
+        ctx.check(not muts, "R5", "pattern-unedited", (FILE, muts[0].line if muts else pat[1]),
+                  "the pattern rows are written exactly as derived from the Jacobian entries" if not muts else
+                  f"the pattern is edited after it was derived from the entries (`{muts[0].kind}` on `{muts[0].target}` at line {muts[0].line}): jac_pattern.dat marks entries the generated "
+                  "Jacobian never stores (or hides stored ones)")
     # R2 verdict
     W = (FILE, m.func.lineno)
     ctx.floor("R2", "sentinel sites", len(sent), 6 if "csr_sentinel" not in ctx.stats else 7, W)
@@ -302,6 +309,15 @@ def _loop_sites(ctx, label, rel, cfg, fname, field, lhs_pat):
 
 
 def _r3(ctx):
+    # dense / sparse agree only if the CSR arrays are cut from the final jacrhs
+    m = model(ctx.tree)
+    from ..odemodel import write_read_order
+    last, first = write_read_order(m, "jacrhs")
+    if last is not None and first is not None:
+        ctx.check(last.seq < first[0], "R3", "csr built from the final jacrhs", (FILE, last.line),
+                  "the CSR arrays are built after the last store into jacrhs" if last.seq < first[0] else
+                  f"jacrhs is modified at line {last.line} after the CSR arrays were built (line {first[1]}): sparse and dense layouts hold different values",
+                  found=f"last store line {last.line}, first consumer line {first[1]}")
     ctx.saw(JAC)
     ctx.saw(ODEINT)
     sp = {"general.method": "sparse"}
@@ -344,7 +360,42 @@ def _norm(s):
     return re.sub(r"\s+", "", s)
 
 
+def _r4_reactions(ctx):
+    """k[i] <-> NREACTIONS: the list whose positions index k[] is the list whose length the header declares."""
+    m = model(ctx.tree)
+    fl = m.flow
+    pkg = package(ctx.tree)
+    W = (FILE, m.func.lineno)
+    # (a) the enumerated list is the NetworkInfo field itself
+    ctx.check(m.REAC == m.REAC_FIELD, "R4", "k index list is netinfo.reactions", W,
+              "reactions are enumerated over netinfo.reactions -- the sequence the templates measure with `network.reactions | length`" if m.REAC == m.REAC_FIELD else
+              "the generator enumerates a different list than the one NREACTIONS measures (a fill-in element is added locally): for the empty network the header declares "
+              "NREACTIONS 0 while k[0] is written",
+              expected="reactions = netinfo.reactions", found=show(m.REAC)[:100])
+    inits = [f for f in fl.facts if f.kind == "init" and f.value and f.value[0] == "meth" and f.value[2] == "_assign_rates"]
+    inits += [type("F", (), {"value": v, "line": line}) for nm, lst in fl.assigns.items() for v, loops, g, line, seq in lst if v[0] == "meth" and v[2] == "_assign_rates"]
+    k = [f for f in inits if f.value[3] and f.value[3][0] == ("const", "k")]
+    ok = bool(k) and all(simp(f.value[3][1]) == m.REAC_FIELD for f in k)
+    ctx.check(ok, "R4", "k assignments enumerate netinfo.reactions", (FILE, k[0].line if k else m.func.lineno),
+              "_assign_rates('k', ..) receives netinfo.reactions", found=show(simp(k[0].value[3][1]))[:80] if k else "missing")
+    # (b) the field receives network.reactions (the property that supplies the dummy reaction of an empty network)
+    import ast as _ast
+    for file, cls, meth in ((FILE, "TemplateLoader", "render"), ("naunet/patches.py", "EnzoPatch", "render")):
+        fn = pkg.classes[cls].methods.get(meth) if cls in pkg.classes else None
+        if fn is None:
+            continue
+        for c in _ast.walk(fn):
+            if isinstance(c, _ast.Call) and _ast.unparse(c.func) == "NetworkInfo" and len(c.args) >= 3:
+                src = " ".join(_ast.unparse(c.args[2]).split())
+                good = src == "network.reactions" or src.startswith("network.reactions or [Reaction(")
+                ctx.check(good, "R4", f"{cls}.{meth}:NetworkInfo.reactions", (file, c.lineno),
+                          "the reactions the templates count are network.reactions (dummy reaction included for the empty network)" if good else
+                          "NetworkInfo.reactions is not network.reactions: NREACTIONS no longer counts the dummy reaction whose rate k[0] is still written",
+                          expected="network.reactions", found=src[:80])
+
+
 def _r4(ctx):
+    _r4_reactions(ctx)
     tree = ctx.tree
     # --- macro definitions
     ctx.saw(MACROS)
